@@ -153,8 +153,8 @@ Lemma reso_spec_unmerged t k j um l : get t (node (N.of_nat k) j) = Some (Par um
 Proof. intros G I. destruct k; cbn [reso_spec]; rewrite G; right; apply in_map_iff; exists l; split; auto. Qed.
 
 (* ---- completeness: a member of the tree always finds its ciphertext ---- *)
-Theorem decap_select_complete t me pr k excl id leafkey :
-  (k <= 29)%nat -> lvl_node (N.of_nat k) me < tlen t ->
+Theorem decap_select_complete_res t me pr k excl id leafkey :
+  resolution_of t (lvl_node (N.of_nat k) me) = Ok (reso_spec t k (me / 2 ^ N.of_nat k)) ->
   get t (2 * me) = Some (Leaf id) -> ~ In me excl ->
   nth_error pr O = Some (Some leafkey) ->
   (* the receiver holds the key of its first non-blank node below the common ancestor, or is
@@ -164,8 +164,8 @@ Theorem decap_select_complete t me pr k excl id leafkey :
    (exists um, get t (lvl_node (N.of_nat k') me) = Some (Par um) /\ In me um)) ->
   exists i key, decap_select t me pr k excl = Ok (Some (i, key)).
 Proof.
-  intros L B Gl Nx K0 H. cbn zeta in H. unfold decap_select.
-  unfold lvl_node at 1. rewrite resolution_of_spec by assumption. cbn [bind ret].
+  intros R Gl Nx K0 H. cbn zeta in H. unfold decap_select.
+  rewrite R. cbn [bind ret].
   assert (Leaf0 : lvl_node 0 me = 2 * me) by (unfold lvl_node; rewrite N.pow_0_r, N.div_1_r, node_0; reflexivity).
   assert (KeepLeaf : keep excl (2 * me) = true).
   { unfold keep. replace (2 * me / 2) with me by (rewrite N.mul_comm, N.div_mul; lia).
@@ -201,6 +201,19 @@ Proof.
       { cbn [N.of_nat]. rewrite Leaf0. apply filter_In. split; [|exact KeepLeaf].
         apply reso_spec_down. fold k'. eapply reso_spec_unmerged; eassumption. }
       destruct (index_of_in _ _ I) as [i Ei]. rewrite Ei, K0. exists i, leafkey. reflexivity.
+Qed.
+
+Theorem decap_select_complete t me pr k excl id leafkey :
+  (k <= 29)%nat -> lvl_node (N.of_nat k) me < tlen t ->
+  get t (2 * me) = Some (Leaf id) -> ~ In me excl ->
+  nth_error pr O = Some (Some leafkey) ->
+  (let k' := down t me k in
+   (exists key, nth_error pr k' = Some (Some key)) \/
+   (exists um, get t (lvl_node (N.of_nat k') me) = Some (Par um) /\ In me um)) ->
+  exists i key, decap_select t me pr k excl = Ok (Some (i, key)).
+Proof.
+  intros L B Gl Nx K0 H. eapply decap_select_complete_res; try eassumption.
+  unfold lvl_node. apply resolution_of_spec; assumption.
 Qed.
 
 (* ---- the receiver's position in the committer's path is never filtered ---- *)
